@@ -64,7 +64,8 @@ class Def:
 
     def text(self, order=None):
         subs = self.subs if order is None else [self.subs[i] for i in order]
-        out = ["BEGIN:VTIMEZONE", f"TZID:{self.tzid}"]
+        tzid_text = self.tzid.replace("\\", "\\\\").replace(";", "\\;").replace(",", "\\,")  # TZID is a TEXT value
+        out = ["BEGIN:VTIMEZONE", f"TZID:{tzid_text}"]
         if self.decor == "xprop":
             out.append("X-LIC-LOCATION:Custom/C12")
         for s in subs:
@@ -211,13 +212,15 @@ def fail(cls, case, expected, observed, known=None):
 def run_def(case):
     fails = []
     decor = None
-    if case[1] in ("decor-xprop", "decor-param"):
+    if case[1] in ("decor-xprop", "decor-param", "decor-tzid"):
         decor = case[1].split("-")[1]
         case_inner = ("def",) + tuple(case[2])
     else:
         case_inner = case
     d = build(case_inner)
     d.decor = decor
+    if decor == "tzid":  # an Exchange-style id: escaped as TEXT in the TZID property, quoted as a parameter
+        d.tzid = "(UTC+01:00) Amsterdam, Berlin; Bern"
     case_for_matchers = case_inner
     obs = d.observances()
     text = "\r\n".join(d.text()) + "\r\n"
@@ -248,9 +251,10 @@ def run_def(case):
         span = period_span(obs)
         if span is not None:
             w1, off1, w2, off2 = span
+            ptz = f'"{d.tzid}"' if any(ch in d.tzid for ch in ",;: ") else d.tzid
             ctext = "\r\n".join(["BEGIN:VCALENDAR", "VERSION:2.0", "PRODID:c12"] + d.text() + [
-                "BEGIN:VEVENT", "UID:p", f"DTSTART;TZID={d.tzid}:{fmt(w1)}", f"DTEND;TZID={d.tzid}:{fmt(w2)}",
-                f"RDATE;VALUE=PERIOD;TZID={d.tzid}:{fmt(w1)}/{fmt(w2)}", "END:VEVENT", "END:VCALENDAR", ""])
+                "BEGIN:VEVENT", "UID:p", f"DTSTART;TZID={ptz}:{fmt(w1)}", f"DTEND;TZID={ptz}:{fmt(w2)}",
+                f"RDATE;VALUE=PERIOD;TZID={ptz}:{fmt(w1)}/{fmt(w2)}", "END:VEVENT", "END:VCALENDAR", ""])
             try:
                 cal = Calendar.from_ical(ctext)
                 ev = cal.walk("VEVENT")[0]
@@ -467,7 +471,7 @@ def definitions(quick):
     for std in STD_OFFSETS:
         for delta in DELTAS:
             for bound in ("none", "until", "count"):
-                for decor in ("decor-xprop", "decor-param"):
+                for decor in ("decor-xprop", "decor-param", "decor-tzid"):
                     yield ("def", decor, ("std+dst", std, delta, -1, (3, 10), "SU", bound, "given"))
     for o1, o2 in itertools.permutations(STD_OFFSETS, 2):
         for named in (True, False):
